@@ -74,6 +74,8 @@ def run(ctx):
                         ok = False
                         ctx.violation(pre + ":printed-value", "text exposition of registry %s (order %s): sample %s%s has value %s but is printed as %s" % (sorted(c["sel"]), list(o), e["name"], lab, s["v"], cands), rp)
                         break
+        elif "err" in rs[-1] and any("UNTYPED" in f["types"] for f in c["g"]):
+            pass      # the text format has no rendering for an untyped family: refusing it is the documented outcome (C17)
         elif "panic" in rs[-1] or "err" in rs[-1]:
             ok = False
             ctx.violation(pre + ":encode-failed", "text encoder failed on gathered families: %s" % rs[-1], rp)
